@@ -184,6 +184,37 @@ func elsewhere(r *rand.Rand, per int, out *hx.Out) {
 			}
 		}
 	}
+	// round 8: a RESUMED start through another host (drawn after everything above: the histories above keep their
+	// values per seed).  Start 1 through host 0 is interrupted, the next start goes through the other host, the
+	// following one through host 0 again (with two interruptions: hosts 0, other, 0, other).  The starts that apply
+	// scripts use different hosts: the statements without ON CLUSTER spread over the hosts (finding
+	// resumed-start-through-another-host excuses the expected-schema clause for these, nothing else).
+	for ci, cfg := range mainCfgs {
+		if !cfg.Clustered {
+			continue
+		}
+		for _, l := range layouts {
+			nh := len(l.shards)
+			log := start(NewDB(nh), cfg, nil).Log
+			for j := 0; j < per; j++ {
+				c := Case{ID: id, Class: names[ci] + "/resumed-start-through-" + l.what, Cfg: cfg, NHosts: nh, Shards: l.shards}
+				kinds := []string{"before", "after"}
+				c.Faults = []*Fault{{N: 4 + r.Intn(len(log)-4), Kind: kinds[r.Intn(2)]}}
+				if j%2 == 1 {
+					c.Faults = append(c.Faults, &Fault{N: 4 + r.Intn(len(log)/2), Kind: kinds[r.Intn(2)]})
+				}
+				c.Conn = make([]int, len(c.Faults)+2)
+				for i := range c.Conn {
+					if i%2 == 1 {
+						c.Conn[i] = l.last
+					}
+				}
+				runCase(&c)
+				out.Put(c)
+				id++
+			}
+		}
+	}
 }
 
 var mainCfgs = []Cfg{
